@@ -1,2 +1,135 @@
-From ICS Require Import Base.Tree Model.Lifecycle.
-Theorem placeholder : True. Proof. exact I. Qed.
+(* Property C10: the consumer lifecycle follows the phase machine and the launch schedule.
+   Theorems about Model/Lifecycle.v (the model the correspondence driver harness/c10 runs); proofs are in
+   Proofs/Lifecycle{Base,Inv,Steps,C10}.v.  All statements are about [reach U ops] = the state after an ARBITRARY
+   sequence [ops] of operations (create / update / remove messages, opt-ins, other sub-protocols' writes, channel
+   handshakes, begin-blocks with arbitrary times and launch oracles, end-blocks with arbitrary oracles, packet
+   timeouts and error acknowledgements) from the empty state, for every unbonding period U.
+   Phases: 0 no such consumer, 1 registered, 2 initialized, 3 launched, 4 stopped, 5 deleted. *)
+From Coq Require Import ZArith List Bool.
+From ICS Require Import Base.Tree Model.Lifecycle Proofs.LifecycleBase Proofs.LifecycleInv Proofs.LifecycleSteps
+  Proofs.LifecycleC10.
+Import ListNotations.
+Open Scope Z_scope.
+
+(* ---- "Each consumer id is issued once, in increasing order" ---- *)
+
+(* the consumers that exist are exactly 0, 1, ..., next-1, in this order *)
+Theorem C10_ids : forall U ops, let s := reach U ops in
+  0 <= s_next s /\ map c_id (s_cons s) = zseq 0 (Z.to_nat (s_next s)).
+Proof. exact c10_ids. Qed.
+
+(* the counter moves only by a successful create, by one; the id it issues was unused and belongs to the new
+   consumer; every existing consumer keeps its id *)
+Theorem C10_ids_step : forall U ops o, let s := reach U ops in
+  s_next (step U s o) = s_next s + (if creates U s o then 1 else 0) /\
+  (creates U s o = true ->
+     get s (s_next s) = None /\ exists r, get (step U s o) (s_next s) = Some r /\ c_id r = s_next s) /\
+  (forall c r, get s c = Some r -> exists r', get (step U s o) c = Some r' /\ c_id r' = c).
+Proof. exact c10_ids_step. Qed.
+
+(* ---- "its phase only moves registered <-> initialized -> launched -> stopped -> deleted" ---- *)
+
+Theorem C10_phase_edges : forall U ops o c,
+  edge_ok (phase_of (reach U ops) c) (phase_of (step U (reach U ops) o) c) = true.
+Proof. exact c10_phase_edges. Qed.
+
+(* "a launched consumer never returns to a pre-launch phase": from launched on the phase never decreases *)
+Theorem C10_no_return : forall U ops ops' c,
+  3 <= phase_of (reach U ops) c -> phase_of (reach U ops) c <= phase_of (reach U (ops ++ ops')) c.
+Proof. exact c10_no_return. Qed.
+
+(* "a deleted one never becomes active again" *)
+Theorem C10_deleted_forever : forall U ops ops' c,
+  phase_of (reach U ops) c = 5 -> phase_of (reach U (ops ++ ops')) c = 5.
+Proof. exact c10_deleted_forever. Qed.
+
+(* ---- "initialized exactly while it has a non-zero spawn time and is then scheduled exactly once at that time" ----
+   (for launched / stopped / deleted consumers the spawn time keeps its last value as a descriptive record) *)
+Theorem C10_queue_consistent : forall U ops, let s := reach U ops in let q := s_spawnq s in
+  NoDup (all_ids q) /\
+  (forall c, In c (all_ids q) -> exists r, get s c = Some r) /\
+  (forall c r, get s c = Some r ->
+     (c_phase r = 2 <-> In c (all_ids q)) /\
+     occ c (all_ids q) = (if c_phase r =? 2 then 1%nat else 0%nat) /\
+     (c_phase r = 2 -> d_spawn (c_desc r) <> 0 /\ In c (tq_get q (d_spawn (c_desc r)))) /\
+     (forall ts, In c (tq_get q ts) -> ts = d_spawn (c_desc r)) /\
+     (c_phase r = 1 -> d_spawn (c_desc r) = 0)).
+Proof. exact c10_queue_consistent. Qed.
+
+(* ---- "launched in the first provider block whose time is at or after the spawn time (at most 200 per block ...)
+        provided its initial validator set is non-empty and contains an active provider validator, and otherwise it
+        falls back to registered with its spawn time cleared" ----
+   att = the first min(200, due) due consumers in queue order.  [attempt r o] is the launched record when the oracle
+   [o] says: set non-empty, active validator present, no external call fails; else the fallback record. *)
+Theorem C10_launch_when_due : forall U ops now ora,
+  let s := reach U ops in let s' := step U s (OBegin now ora) in let att := attempted s now in
+  all_ids (s_spawnq s') = skipn (length att) (all_ids (s_spawnq s)) /\
+  (forall c, In c att -> exists r, get s c = Some r /\ c_phase r = 2 /\
+     let r' := attempt r (lookup no_lora ora c) in
+     get s' c = Some r' /\
+     (lora_good (lookup no_lora ora c) = true ->
+        c_phase r' = 3 /\ p_genesis (c_proto r') = true /\ p_client (c_proto r') = true /\
+        p_evmin (c_proto r') = true /\ p_valset (c_proto r') = lo_size (lookup no_lora ora c)) /\
+     (lora_good (lookup no_lora ora c) = false ->
+        c_phase r' = 1 /\ d_spawn (c_desc r') = 0 /\ no_artefact (c_proto r') = true /\ c_proto r' = c_proto r)) /\
+  (forall c r, ~ In c att -> get s c = Some r -> c_phase r = 2 -> get s' c = Some r /\ In c (all_ids (s_spawnq s'))).
+Proof. exact c10_launch_when_due. Qed.
+
+(* the fallback is total: the launch part of BeginBlock never returns an error (code 0 = ok) ... *)
+Theorem C10_fallback_total : forall U ops now ora, result U (reach U ops) (OBegin now ora) = 0.
+Proof. exact c10_begin_total. Qed.
+
+(* ... because the stored initial height always matches the revision of the stored chain id (this is the invariant
+   that the repaired UpdateConsumer maintains; without the repair it is refuted by
+   create(chain rev 1, height rev 1, spawn T); update(new chain id with rev 2); begin-block at T, finding C10-F1) *)
+Theorem C10_revision_invariant : forall U ops c r,
+  get (reach U ops) c = Some r -> d_rev (c_desc r) = d_hrev (c_desc r).
+Proof. exact c10_rev_invariant. Qed.
+
+(* ---- "(at most 200 per block, the rest in the following blocks)": n consumers due at time T are all attempted
+        within ceil(n/200) begin-blocks at times >= T ---- *)
+Theorem C10_all_due_processed : forall U ops T bl, Forall (fun b => T <= fst b) bl ->
+  let s := reach U ops in
+  let s' := fold_left (step U) (map (fun b => OBegin (fst b) (snd b)) bl) s in
+  length (due (s_spawnq s') T) = (length (due (s_spawnq s) T) - limit * length bl)%nat /\
+  ((length (due (s_spawnq s) T) <= limit * length bl)%nat -> due (s_spawnq s') T = []).
+Proof. exact c10_all_due_processed. Qed.
+
+(* ---- "A successful launch records the consumer genesis ... and the consumer's light client" ---- *)
+Theorem C10_artefacts : forall U ops c r, get (reach U ops) c = Some r ->
+  (c_phase r = 3 -> p_genesis (c_proto r) = true /\ p_client (c_proto r) = true /\ p_evmin (c_proto r) = true) /\
+  (c_phase r <= 2 -> no_artefact (c_proto r) = true /\ p_channel (c_proto r) = false /\
+                     p_pending (c_proto r) = 0 /\ p_removal (c_proto r) = 0).
+Proof. exact c10_artefacts. Qed.
+
+(* ---- non-vacuity ---- *)
+
+Definition good : lora := mkLO 2 true false.
+Definition noactive : lora := mkLO 1 false false.
+
+(* three consumers due at time 10; 0 launches, 1 has no active validator, 2 was unscheduled by its owner; 3 is due later *)
+Definition ex_ops : list op :=
+  [ OCreate 1 7 1 (Some (5, 1, 0)); OCreate 2 7 1 (Some (5, 1, 0)); OCreate 1 8 0 (Some (9, 0, 0));
+    OCreate 3 9 1 (Some (30, 1, 0)); OCreate 3 9 2 None;
+    OUpdate 2 1 None None (Some (0, 0, 0)); OUpdate 2 9 None None None;
+    OBegin 10 [(0, good); (1, noactive); (3, good)] ].
+
+Example C10_ex_launch :
+  let s := reach 50 ex_ops in
+  s_next s = 4 /\ map (phase_of s) [0; 1; 2; 3; 4] = [3; 1; 1; 2; 0] /\
+  attempted (reach 50 (removelast ex_ops)) 10 = [0; 1] /\
+  s_spawnq s = [(30, [3])] /\
+  map (fun c => match get s c with Some r => d_spawn (c_desc r) | None => -1 end) [0; 1; 2; 3] = [5; 0; 0; 30] /\
+  map (result 50 (reach 50 (firstn 4 ex_ops))) (skipn 4 ex_ops) = [5; 0; 3; 0].
+Proof. vm_compute. repeat split; reflexivity. Qed.
+
+(* 201 consumers due in one block: 200 are attempted, the last one in the next block *)
+Definition many_ops : list op :=
+  map (fun _ => OCreate 1 7 1 (Some (5, 1, 0))) (seq 0 201) ++ [OBegin 10 (map (fun c => (Z.of_nat c, good)) (seq 0 201))].
+
+Example C10_ex_201 :
+  let s := reach 50 many_ops in
+  length (attempted (reach 50 (removelast many_ops)) 10) = 200%nat /\
+  phase_of s 199 = 3 /\ phase_of s 200 = 2 /\ s_spawnq s = [(5, [200])] /\
+  phase_of (step 50 s (OBegin 10 [(200, good)])) 200 = 3.
+Proof. vm_compute. repeat split; reflexivity. Qed.
